@@ -884,6 +884,7 @@ def _first_diff(a, b):
 
 
 def index_case(ctx, rng):
+    from vf import core
     from whoosh import fields
     from whoosh.filedb.filestore import RamStorage, FileStorage, copy_to_ram
     from whoosh.writing import BufferedWriter
@@ -901,7 +902,9 @@ def index_case(ctx, rng):
         fs.name = "f%d" % len(fspecs)
         fspecs.append(fs)
         ctx.count("idx.wide")
-    schema = fields.Schema(id=fields.ID(stored=True, unique=True))
+    # zz_poison sorts after every other field name: a junk value makes add_document() raise AFTER the other
+    # fields of that document were processed (rejected documents must leave nothing behind)
+    schema = fields.Schema(id=fields.ID(stored=True, unique=True), zz_poison=fields.NUMERIC(int))
     for fs in fspecs:
         fs.field = fs.make()
         schema.add(fs.name, fs.field)
@@ -969,6 +972,19 @@ def index_case(ctx, rng):
                 live = sorted(model.docs)
                 for _ in range(rng.randint(1, 5) if not (wide and c == 0) else rng.randint(270, 300)):
                     op = rng.choice(["add", "add", "add", "delete", "update"])
+                    if rng.random() < 0.12:
+                        # a document the schema rejects part-way through; the caller absorbs the error and goes on
+                        # with the same writer (tests/test_writing.py::test_add_fail_with_absorbed_exception)
+                        rkey = newkey()
+                        rdoc = gen_doc(rng, rkey, fspecs)
+                        try:
+                            wr.add_document(zz_poison=u"not a number", **doc_kwargs(rkey, rdoc))
+                            raise core.HarnessError("poisoned document was accepted")
+                        except core.HarnessError:
+                            raise
+                        except Exception:  # noqa - the documented rejection
+                            ctx.count("idx.rejected_adds")
+                            ops.append(("rejected-add", rkey, sorted(rdoc["fields"]), sorted(rdoc["over"])))
                     if op == "add" or not live:
                         key = newkey()
                         doc = gen_doc(rng, key, fspecs)
